@@ -74,7 +74,7 @@ deriving DecidableEq, Repr
 /-- which handshake the server runs for a ClientHello version -/
 def dispatch (m : SMode) (v : Nat) : Path :=
   match m with
-  | .gm => .gm
+  | .gm => if v = Gen.TLS.versionGMSSL then .gm else .reject  -- repaired: the GMSSL handshake serves 0x0101 only
   | .tls => .tls
   | .auto =>
     if v = Gen.TLS.versionGMSSL then .gm
